@@ -33,6 +33,10 @@ def build(cfg):
                       "options": {"script": [{"f": "f" in r, "g": "g" in r, "x": None,
                                               "batch": [[0.5, 1.0], [0.25, 2.0]] if r == "fb" else None} for r in cfg["reqs"]]}},
     }
+    if fclass in ("allnan", "allnanpert"):
+        # two objectives and three constraints where every realization may fail (the counts differ on purpose)
+        c["objectives"] = {"weights": [1.0, 0.5]}
+        c["nonlinear_constraints"] = {"lower_bounds": [-INF] * 3, "upper_bounds": [100.0, 1e9, 1e9]}
     if cfg["maxfun"]:
         c["optimizer"]["max_functions"] = cfg["maxfun"]
     if est == "std":
@@ -53,6 +57,16 @@ def build(cfg):
 
 
 def drive(sc):
+    trace, feats = _execute(sc, direct=False)
+    cfg = sc["cfg"]
+    if cfg["kind"] == "opt" and cfg["fclass"] != "exc":
+        # the same run with the optimization engine used directly (no plan, no step, no evaluation signal): the same exit code
+        other, _ = _execute(sc, direct=True)
+        trace[-1]["direct"] = other[-1]["code"]
+    return trace, feats
+
+
+def _execute(sc, direct):
     cfg = sc["cfg"]
     config, transforms = build(cfg)
     state = {"call": 0, "req": 0, "pending": None, "nfun": 0}
@@ -89,6 +103,9 @@ def drive(sc):
                 tgt[(perts == 0) & (real < 2)] = np.nan          # realizations 0 and 1 lose a perturbation: one realization is left
             elif fclass == "allnanpert" and perts is not None:
                 tgt[perts >= 0] = np.nan
+        if fclass in ("allnan", "allnanpert"):
+            obj = np.concatenate([obj, 0.0 * obj + 1.0], axis=1) if not np.isnan(obj).any() else np.concatenate([obj, obj], axis=1)
+            con = np.concatenate([con, 0.0 * con, 0.0 * con], axis=1)
         return EvaluatorResult(objectives=obj, constraints=con)
 
     def finished(event):
@@ -107,7 +124,14 @@ def drive(sc):
     ctx = OptimizerContext(evaluator=evaluator, plugin_manager=pm)
     ctx.add_observer(EventType.FINISHED_EVALUATION, finished)
     plan = Plan(ctx)
-    if cfg["kind"] == "eval":
+    if direct:
+        from ropt.config.enopt import EnOptConfig
+        from ropt.ensemble_evaluator import EnsembleEvaluator
+        from ropt.optimization import EnsembleOptimizer
+        cfgobj = EnOptConfig.model_validate(config, context=transforms)
+        engine = EnsembleOptimizer(cfgobj, EnsembleEvaluator(cfgobj, transforms, evaluator, pm), pm)
+        code, outcome = outcome_of(lambda: engine.start(np.array(cfgobj.variables.initial_values)))
+    elif cfg["kind"] == "eval":
         step = plan.add_step("evaluator")
         config.pop("optimizer")
         code, outcome = outcome_of(lambda: plan.run_step(step, config=config, transforms=transforms))
@@ -124,7 +148,7 @@ def drive(sc):
             code, outcome = outcome_of(lambda: plan.run_step(step, config=config, transforms=transforms))
     if state["pending"] is not None:
         events.append({"ev": "Eval", "idx": state["pending"], "delivered": False, "failed": False, "code": "", "nfun": 0})
-    events.append({"ev": "Exit", "idx": 0, "delivered": False, "failed": False,
+    events.append({"ev": "Exit", "idx": 0, "delivered": False, "failed": False, "direct": "",
                    "code": exit_name(code) if outcome == "ok" else outcome, "nfun": state["nfun"]})
     trace = [{"ev": "Scenario", "cfg": cfg}] + events
     feats = {"nontrivial": bool(failAt > 1 or (failAt >= 1 and (cfg["flt"] != "none" or cfg["tf"] != "none" or cfg["est"] == "std"
